@@ -424,6 +424,13 @@ def _c12(key, case, f):
             return True
         # ... and the driver's attempt to parse that truncated output back runs off its end (read side trusts the lengths it reads)
         return f.get("what") == "heap-buffer-overflow" and f.get("access") == "READ" and f.get("func") in ("read_thrift", "read_list", "NumpyIO_read_byte", "read_unsigned_var_int")
+    if key == "thrift-long-form-field-header-misparsed":
+        # once a long-form field header has been misread the parser is out of step with the input: the lengths it then takes from
+        # the wrong bytes make it read past the end of the buffer (the read side never checks a length against what is left)
+        inner = case.get("inner") or {}
+        return (case.get("driver") == "c10" and bool(inner.get("long_form")) and inner.get("route") == "foreign"
+                and k == "sanitizer_report" and f.get("san") == "asan" and f.get("what") == "heap-buffer-overflow" and f.get("access") == "READ"
+                and f.get("func") in ("read_thrift", "read_list", "NumpyIO_read_byte", "read_unsigned_var_int", "NumpyIO_read"))
     if key == "bit-unpack-32bit-accumulator-width-ge-25":
         return _san(f, "ubsan", ("shift-exponent",), "read_bitpacked", (155,), msg=("shift exponent 32",))
     if key == "int32-shift-arithmetic-in-bit-unpacking":
@@ -461,6 +468,6 @@ for _k in ("int32-shift-arithmetic-in-bit-unpacking", "write-bitpacked1-signed-c
            "bit-unpack-reads-past-short-final-group"):
     PREDICATES[_k] = (lambda key: (lambda prop, case, f: prop == "C12" and _c12(key, case, f)))(_k)
 
-for _k in ("thrift-serialisation-buffer-overflow", "bit-unpack-32bit-accumulator-width-ge-25", "encode-bitpacked-32bit-accumulator-width-ge-25",
+for _k in ("thrift-serialisation-buffer-overflow", "thrift-long-form-field-header-misparsed", "bit-unpack-32bit-accumulator-width-ge-25", "encode-bitpacked-32bit-accumulator-width-ge-25",
            "delta-unpack-miniblock-width-ge-29", "bitpacked-run-of-width-0-consumes-one-byte", "delta-page-without-values-reads-a-nonexistent-block"):
     PREDICATES[_k] = (lambda key, old: (lambda prop, case, f: _c12(key, case, f) if (prop == "C12" and f.get("kind") in ("sanitizer_report", "inner_oracle_failed_under_sanitised_build")) else old(prop, case, f)))(_k, PREDICATES[_k])
